@@ -200,14 +200,21 @@ def wrapper_job(interp, c, case):
     else:
         obj.LL_stoch = _LL()
     r = obj.get_likelihood_function([x])
+    rp = dict(kind="wrapper", cls=cls, fams=[fam], shapes=["sym"], positives=[False], region=region)
+    syms = {"x0": x}
+    for j, hv in enumerate(h):
+        if is_sym(hv):
+            syms["h0_%d" % j] = hv
     if region == "inside":
         c.prove(r == s_log(d) + L if is_sym(r) else False, "%s/%s posterior = log-prior + log-likelihood" % (cls, fam),
                 info={"sig": "%s wrapper inside" % cls, "what": "%s/%s returns %r" % (cls, fam, r)})
         c.prove(len(calls) == 2 and calls[0] == {"p0": 1.0, "p1": 1.0, "p2": 1.0} and list(calls[1]) == ["p0"],
                 "%s resets parameters to defaults, then applies theta" % cls)
     else:
-        c.prove(r == float("-inf") if not is_sym(r) else False, "%s/%s posterior is -inf outside the support" % (cls, fam),
-                info={"sig": "%s/%s wrapper outside" % (cls, fam), "what": "%s/%s returns %r outside support" % (cls, fam, r)})
+        ok = c.prove(r == float("-inf") if not is_sym(r) else False, "%s/%s posterior is -inf outside the support" % (cls, fam),
+                     info={"sig": "%s/%s wrapper outside" % (cls, fam), "what": "%s/%s returns %r outside support" % (cls, fam, r)})
+        if ok is False:
+            c.failures[-1]["replay"] = dict(rp, values=model_env(c, c.failures[-1]["model"], syms))
 
 
 def cases(tier):
@@ -251,7 +258,7 @@ def check(tier):
     for i in range(0, len(cs), k):
         ck.add("priors/%d" % (i // k), "harness.C16", "prior_job", dict(cases=cs[i:i + k]))
     ws = [(cls, fam, reg) for cls in ("DeterministicInference", "StochasticInference")
-          for fam in ("uniform", "exponential", "gaussian", "beta") for reg in ("inside", "outside")
+          for fam in ("uniform", "exponential", "gaussian", "beta", "log-uniform", "log-gaussian") for reg in ("inside", "outside")
           if not (fam == "gaussian" and reg == "outside")]
     ck.add("wrappers", "harness.C16", "wrapper_job", dict(cases=ws))
     ck.bounds = dict(parameters="1..%d per vector" % (4 if tier == "thorough" else 2), families=7,
